@@ -16,6 +16,14 @@ CHECKS = {
         "front end repeats symmetrically are covered by C09/C04, not here. Shared transcendental kernels: only which intrinsic/arguments is checked.",
         "DESIGN.md §5 C01, appendix A",
     ),
+    "C04": (
+        "differential monitor: second-generation compile of the emitted DirectX HLSL compared byte for byte and slot by slot",
+        "For every accepted input (tests/ corpus entry files, all unit-test snippets, generated executable and declaration programs) the "
+        "emitted DirectX HLSL is compiled again: it must be accepted, reproduce itself byte for byte and keep every resource on the same "
+        "(group, slot, count). Exploration over the inputs counted in the evidence; three recorded findings are tolerated by narrow signatures.",
+        "Only rssl's own front end reads the text back (no DXC in the sandbox). Known findings: known_findings.d/C04.json.",
+        "DESIGN.md §5 C04",
+    ),
     "C08": (
         "process-level runtime monitor: supervised child processes, panic/abort/step-budget classification over hostile generated inputs",
         "Every compile() execution of a large hostile workload (byte/token/structured soups, mutated unit-test snippets and corpus files, "
